@@ -42,6 +42,31 @@ def krome_with_var():
     return Network(filelist=str(p), fileformats="krome")
 
 
+def mixed_files(parts, grain="", **kw):
+    """several reaction files of different formats in ONE network; a part is (format, path or list of lines)"""
+    def make():
+        d = ol.scratch_dir()
+        paths, fmts = [], []
+        for j, (fmt, src) in enumerate(parts):
+            if isinstance(src, str):
+                paths.append(str(R / src))
+            else:
+                p = d / f"part{j}.{fmt}"
+                p.write_text("\n".join(src) + "\n")
+                paths.append(str(p))
+            fmts.append(fmt)
+        return Network(filelist=paths, fileformats=fmts, grain_model=grain, **kw)
+    return make
+
+
+# KIDA lines with formula 1 (cosmic-ray ionisation: alpha * zeta), 2 (photo) and 3
+KIDA_CR = "H2         CR                     H          H                                             4.600e-01  0.000e+00  0.000e+00 2.00e+00 0.00e+00 logn  1    -9999   9999  1  9001 1  1"
+KIDA_PH = "CO         Photon                 C          O                                             2.000e-10  0.000e+00  3.530e+00 2.00e+00 0.00e+00 logn  2    -9999   9999  2  9002 1  1"
+KIDA_TB = "C          CH                     H          C2                                            2.400e-10  0.000e+00  0.000e+00 2.00e+00 1.00e+02 logn  4     10    300  3  4894 1  1"
+UMIST_CP = '9003:CP:He:CRP:He+:e-:::1:5.00e-01:0.00:0.0:10:41000:L:A:"x"::'
+UCL_LINES = ["H,CRP,NAN,H+,E-,NAN,NAN,4.6e-1,0.0,0.0,10,41000", "H,H,NAN,H2,NAN,NAN,NAN,1.0e-17,0.5,0.0,10,41000"]
+
+
 CONFIGS = [
     cfg_file("tests/data/minimal.kida", "kida"),
     cfg_file("tests/data/minimal.umist", "umist"),
@@ -61,6 +86,15 @@ CONFIGS = [
                                                                     (["#H", "#CO"], ["#HCO"], T.SURFACE_TWOBODY), (["H", "H"], ["H2"], T.GAS_TWOBODY)],
                                                                    grain="hh93", required=["GRAIN0"])},
     {"name": "api: empty network", "make": api_net([], required=["H", "He"])},
+    # several formats in one network: every class registers its own symbols (zeta / zeta_cr / zism ...) and the registries are merged
+    {"name": "mixed: leeds file, then KIDA lines (cosmic ray, photo, two-body)", "grain": "hh93",
+     "make": mixed_files([("leeds", "tests/data/minimal.leeds"), ("kida", [KIDA_CR, KIDA_PH, KIDA_TB])], grain="hh93")},
+    {"name": "mixed: KIDA lines, then leeds file", "grain": "hh93",
+     "make": mixed_files([("kida", [KIDA_CR, KIDA_PH, KIDA_TB]), ("leeds", "tests/data/minimal.leeds")], grain="hh93")},
+    {"name": "mixed: UMIST line (CP), KIDA lines, UCLCHEM lines", "grain": "rr07",
+     "make": mixed_files([("umist", [UMIST_CP]), ("kida", [KIDA_CR, KIDA_TB]), ("uclchem", UCL_LINES)], grain="rr07", required_species=["H2", "H"])},
+    {"name": "mixed: UCLCHEM lines, UMIST file, KIDA lines",
+     "make": mixed_files([("uclchem", UCL_LINES), ("umist", "tests/data/minimal.umist"), ("kida", [KIDA_PH, KIDA_CR])], grain="rr07", required_species=["H2", "H"])},
 ]
 FINDINGS = [
     ("C10-hh93i-stick-needs-leeds", {"name": "api: native grain reactions (hh93i)", "grain": "hh93i",
